@@ -508,6 +508,11 @@ func configs(tier string) []cfg {
 		// a relist that drops an object: the Delete it produces carries the cached (same) version
 		{Name: "fsub[l=1]/init-a1,b1/relist-drops-b", Variant: "fsub", F0: 2, Init: init2, Hist: []pop{{kind: "relist", list: []metav1.Object{a(1, "1")}}}, Mode: "S2", Bound: d},
 		{Name: "fclone[l=1]>fsub[name=a]/init-a1,b1/relist-drops-a", Variant: "fclone>fsub", F0: 2, F1: 4, Init: init2, Hist: []pop{{kind: "relist", list: []metav1.Object{b(1, "1")}}}, Mode: "S2", Bound: d},
+		// events older than the newest object the node has seen: the Delete of a relist carries the (old) cached version,
+		// the Create of an upstream widening carries the object's (old) version - versions order one object's history,
+		// not the stream
+		{Name: "fsub[l=1]/init-a5,b1/relist-drops-b", Variant: "fsub", F0: 2, Init: []metav1.Object{a(5, "1"), b(1, "1")}, Hist: []pop{{kind: "relist", list: []metav1.Object{a(5, "1")}}}, Mode: "S2", Bound: d},
+		{Name: "fclone[l=1]>fsub[Null]/init-a5,b1(l=0)/refilter(Null)", Variant: "fclone>fsub", F0: 2, F1: 0, Init: []metav1.Object{a(5, "1"), b(1, "0")}, Refs: []int{0}, Mode: "S2", Bound: d},
 		// an object at resourceVersion 0 in the parent when the node syncs / is first filtered
 		{Name: "fsub[l=1]/init-a1,b0/upd-a2(l=0)", Variant: "fsub", F0: 2, Init: []metav1.Object{a(1, "1"), b(0, "1")}, Hist: h2[:1], Mode: "S2", Bound: d},
 		{Name: "dclone>sub/init-a1,b0/refilter(l=1)", Variant: "dclone>sub", Init: []metav1.Object{a(1, "1"), b(0, "1")}, Hist: h2[:1], Refs: []int{2}, Mode: "S2", Bound: d},
